@@ -185,3 +185,68 @@ Example C07_nonvacuous :
   | _ => false
   end = true.
 Proof. vm_compute. reflexivity. Qed.
+
+From NurbsV Require Import Spec.BSpline Gen.Consts Model.Linalg Model.Quadrature Model.LeastSq Model.CurveLS Proofs.Local Proofs.CleanProofs.
+(* ---- joining (Proofs/CleanProofs.v): over the concatenated vector with the concatenated control points the joined curve IS the left
+   operand on [umin A, umax A) and the right operand on [umin B, umax B] (before the junction knot is cleaned); the model's `A | B` for
+   equal degrees is exactly knot_clean of that curve at the junction, which stops only when a further removal is refused. ---- *)
+Theorem C07_join_wf :
+  forall (Ua Ub : list Q) (p : nat),
+       WF Ua p -> WF Ub p -> last_q Ua == first_q Ub -> WF (join_vec Ua Ub p) p.
+Proof. exact join_wf. Qed.
+Print Assumptions C07_join_wf.
+
+Theorem C07_join_is_left_operand :
+  forall (Ua Ub : list Q) (p : nat) (Pa Pb : list (list Q)) (d : nat) (u : Q),
+       WF Ua p ->
+       WF Ub p ->
+       last_q Ua == first_q Ub ->
+       length Pa = npts_of Ua p ->
+       length Pb = npts_of Ub p ->
+       in_range Ua p u = true ->
+       u < umax_of Ua p ->
+       Forall2 Qeq (curve_spec (join_vec Ua Ub p) p d (Pa ++ Pb) u) (curve_spec Ua p d Pa u).
+Proof. exact join_left_pts. Qed.
+Print Assumptions C07_join_is_left_operand.
+
+Theorem C07_join_is_right_operand :
+  forall (Ua Ub : list Q) (p : nat) (Pa Pb : list (list Q)) (d : nat) (u : Q),
+       WF Ua p ->
+       WF Ub p ->
+       last_q Ua == first_q Ub ->
+       length Pa = npts_of Ua p ->
+       length Pb = npts_of Ub p ->
+       in_range Ub p u = true ->
+       Forall2 Qeq (curve_spec (join_vec Ua Ub p) p d (Pa ++ Pb) u) (curve_spec Ub p d Pb u).
+Proof. exact join_right_pts. Qed.
+Print Assumptions C07_join_is_right_operand.
+
+Theorem C07_join_limits :
+  forall (Ua Ub : list Q) (p : nat),
+       WF Ua p ->
+       WF Ub p ->
+       last_q Ua == first_q Ub ->
+       umin_of (join_vec Ua Ub p) p == umin_of Ua p /\
+       umax_of (join_vec Ua Ub p) p == umax_of Ub p /\ umin_of Ua p < last_q Ua < umax_of Ub p.
+Proof. exact join_limits. Qed.
+Print Assumptions C07_join_limits.
+
+Theorem C07_join_model_same_degree :
+  forall (a b : curve) (Pa Pb : list pt),
+       cP a = Some Pa ->
+       cP b = Some Pb ->
+       cW a = None ->
+       cW b = None ->
+       kdeg (ckv b) = kdeg (ckv a) ->
+       WF (kvec (ckv a)) (kdeg (ckv a)) ->
+       WF (kvec (ckv b)) (kdeg (ckv b)) ->
+       last_q (kvec (ckv a)) == first_q (kvec (ckv b)) ->
+       let J := joined a b Pa Pb in
+       let t := last_q (kvec (ckv a)) in
+       c_join a b = c_knot_clean J (Some [t]) tol_kclean /\
+       c_join a b = Ok (remove_while (length (kvec (ckv J))) J t (Some tol_kclean)) /\
+       (exists e : exn,
+          c_knot_remove (remove_while (length (kvec (ckv J))) J t (Some tol_kclean)) [t] (Some tol_kclean) =
+          Err e).
+Proof. exact c_join_same_degree. Qed.
+Print Assumptions C07_join_model_same_degree.
